@@ -308,6 +308,8 @@ def plan(ctx):
             slashed = ["q/", "nested/pre//", "/", "/lead/ing", "in//ner/", "//"][i % 6]
             for j, pfx in enumerate([None, "nested/pre/fix", "p", slashed]):
                 for ps in pages:
+                    if j == 3 and ps not in (pages[i % 4], pages[(i + 2) % 4]):
+                        continue                     # the slash-spelled prefix: two page sizes per history
                     if (i + j + ps) % 3 != 0 or ps == pages[(i + j) % 4]:
                         variants.append((pfx, ps))
         cases.append({"idx": i, "cfg": cfg, "ops": ops, "variants": variants})
@@ -315,8 +317,7 @@ def plan(ctx):
     # until /repo commit 1405318 they were the known finding prefix-trailing-slash): a scripted preamble that
     # commits two versions of one object, commits and purges a second one, then a short generated history;
     # the filesystem side is opened under a root spelled with the same trailing slashes
-    spellings = ["pre/", "a/b//", "/", "/pre", "//x/y/", "p//q/"] if quick else \
-                ["pre/", "a/b//", "/", "/pre", "//x/y/", "p//q/", "x///", "//", "/pre/", "ü/"]
+    spellings = ["pre/", "a/b//", "/", "/pre", "//x/y/", "p//q/", "x///", "//", "/pre/", "ü/"]
     for j, pfx in enumerate(spellings):
         cfg = dict(cfgs[(j + 1) % len(cfgs)], ext_staging=True, fresh_handle=(j % 3 == 2))
         a, c = hist.obj_id(cfg, 5), hist.obj_id(cfg, 6)
